@@ -5,7 +5,7 @@
    every run (harness/c12.py).  Theorems are over the rationals (order/field facts) or over an
    arbitrary commutative semiring (B'WB, B'Wy); float rounding is outside (see claims/C12.json). *)
 From Coq Require Import List Arith Bool Lia QArith Setoid Morphisms Ring ZArith.
-From PB Require Import C12.Num C12.LArr C12.Model C12.Refine C12.ProofsQ C12.Btb C12.CoxDeBoor C12.Proofs.
+From PB Require Import C12.Num C12.LArr C12.Model C12.Refine C12.ProofsQ C12.Btb C12.CoxDeBoor C12.Proofs C12.Btwb2D.
 Import ListNotations.
 
 (* _find_interval returns THE knot interval of x, for every starting hint (also out-of-range hints),
@@ -125,6 +125,35 @@ Theorem C12_bmat_is_design_matrix : forall (N : Num) (x knots : list (T N)) (k :
     ((forall j, (j <= k)%nat -> nth (i * (k + 1) + j) col 0%nat <> c) -> Bmat N x knots k data i c = zero N).
 Proof. exact bmat_design. Qed.
 Print Assumptions C12_bmat_is_design_matrix.
+
+(* 2-D: SplineBasis2D._make_btwb (face-splitting products, G_r' W G_c, reshape (P,P,Q,Q) -> transpose [0,2,1,3] ->
+   reshape (PQ,PQ), modelled with the div/mod maps of C-ordered data) is, entry by entry and for EVERY weight
+   matrix, (B_r (x) B_c)' diag(vec W) (B_r (x) B_c); any commutative semiring, any shapes. *)
+Theorem C12_btwb_2d : forall (N : Num) (req : T N -> T N -> Prop),
+  Equivalence req -> Proper (req ==> req ==> req) (add N) -> Proper (req ==> req ==> req) (mul N) ->
+  semi_ring_theory (zero N) (one N) (add N) (mul N) req ->
+  forall (M Nn P Q : nat) (Br W Bc : mat N) (a b c d : nat),
+  (a < P)%nat -> (b < P)%nat -> (c < Q)%nat -> (d < Q)%nat ->
+  req (make_btwb N M Nn P Q Br W Bc (a * Q + c)%nat (b * Q + d)%nat)
+      (sumR N Nn (fun j => sumR N M (fun i =>
+         mul N (mul N (W i j) (mul N (Br i a) (Bc j c))) (mul N (Br i b) (Bc j d))))).
+Proof. exact make_btwb_kron. Qed.
+Print Assumptions C12_btwb_2d.
+
+(* ... and for separable weights W[i,j] = u_i v_j it is the Kronecker product of the two weighted 1-D normal
+   matrices sum_i u_i B[i,a] B[i,b] of C12_btb_exact.  Constant weights w are u = w, v = 1: the result is
+   w * (B_r'B_r (x) B_c'B_c); the weight value never drops out (unit weights are the only case where it may). *)
+Theorem C12_btwb_2d_separable : forall (N : Num) (req : T N -> T N -> Prop),
+  Equivalence req -> Proper (req ==> req ==> req) (add N) -> Proper (req ==> req ==> req) (mul N) ->
+  semi_ring_theory (zero N) (one N) (add N) (mul N) req ->
+  forall (M Nn P Q : nat) (Br W Bc : mat N) (u v : nat -> T N) (a b c d : nat),
+  (a < P)%nat -> (b < P)%nat -> (c < Q)%nat -> (d < Q)%nat ->
+  (forall i j, (i < M)%nat -> (j < Nn)%nat -> req (W i j) (mul N (u i) (v j))) ->
+  req (make_btwb N M Nn P Q Br W Bc (a * Q + c)%nat (b * Q + d)%nat)
+      (mul N (sumR N M (fun i => mul N (mul N (u i) (Br i a)) (Br i b)))
+             (sumR N Nn (fun j => mul N (mul N (v j) (Bc j c)) (Bc j d)))).
+Proof. exact make_btwb_separable. Qed.
+Print Assumptions C12_btwb_2d_separable.
 
 (* hypotheses are satisfiable; the ring laws hold for Q (with Qeq) and Z *)
 Example C12_hypotheses_nonvacuous :
